@@ -71,18 +71,19 @@ def run(cx, out):
         D = decshape.DecShapes(facts, S)
         from . import c02
         for f in sk:
-            if f['self'] == '[T; N]':
-                continue
             imp = [i for i in facts.impls_of('Decode') if i['path'] == f.get('impl') and i['self'] == f['self']]
             if not imp:
                 out.fail('R18.2', 'skip override of %s [%s]' % (f['self'], cfg), 'impl not found', f['loc'])
                 continue
             ws, ts, vs = D.dec_shape(imp[0], 'skip')
             wd, td, vd = D.dec_shape(imp[0], 'decode')
+            if f['self'] == '[T; N]':
+                # decode of an array is decode_into of the array: compare with the type's wire shape instead
+                wd = S.wire_type(T.from_json(imp[0]['self_ty']))
             a, b = c02.norm(ws), c02.norm(wd)
             ok = a == b and not c02.find_kind(a, 'opaque')
             # same strictness of tag dispatch
-            if ok:
+            if ok and f['self'] != '[T; N]':
                 from . import c03
                 at = [x for x in items(ts) if x[0] == 'alt']
                 bt = [x for x in items(td) if x[0] == 'alt']
@@ -94,33 +95,6 @@ def run(cx, out):
                     ok = False
             out.ob('R18.2', 'skip override of %s [%s]' % (f['self'], cfg), ok,
                    'skip reads %s but decode reads %s (or accepts different tags / does not return Ok(()))' % (str(a)[:160], str(b)[:160]), f['loc'])
-        for f in sk:
-            if f['self'] != '[T; N]':
-                continue
-            t, v, ev = wire.infer_decoder_fn(facts, f)
-            why = []
-            alts = [x for x in items(t) if x[0] == 'alt']
-            if len(alts) != 1:
-                why.append('expected one branch on encoded_fixed_size')
-            else:
-                for d, x in alts[0][2]:
-                    evs = [e for e in events(x) if e[0] in ('dec',)]
-                    stars = [y for y in sym.walk(x) if y[0] == 'star']
-                    if stars:
-                        rng = sym.vstr(stars[0][1])
-                        body = [e for e in items(stars[0][2])]
-                        if rng != 'Range::Range{0: 0:usize, 1: cparam(N, usize)}' and not rng.startswith('Range::Range{0: 0:usize, 1: cparam(N'):
-                            why.append('element skips do not cover 0..N: ' + rng)
-                        if [e[0] for e in body] != ['dec', '?'] or body[0][3] != 'skip' or body[0][1] != 'T':
-                            why.append('loop body is not T::skip(input)?')
-                    else:
-                        if not (len(evs) == 1 and evs[0][1] == '[T; N]' and evs[0][3] == 'decode'):
-                            why.append('fallback branch is not a full decode of the array')
-                        if [e[0] for e in items(x)][-1:] != ['?'] and [e[0] for e in items(x)] != ['dec', '?']:
-                            why.append('fallback decode error not propagated')
-            if sym.vstr(v) != 'Ok(())':
-                why.append('returns ' + sym.vstr(v))
-            out.ob('R18.2', '[T; N]::skip [%s]' % cfg, not why, '; '.join(why), f['loc'], sample={'term': sym.tstr(t)})
         d = facts.trait_default('Decode', 'skip')
         if d:
             t, v, ev = wire.infer_decoder_fn(facts, d)
